@@ -3,8 +3,10 @@
      add                      (C21_add)
      sub, neg                 when the subtracted interval's upper bound is one of its members (C21_sub, C21_neg)
    and refuted without that hypothesis (C21_sub_unaligned_refuted: the witness is a known finding).
+     zero_extend              when the interval does not wrap around (C21_zext), refuted when it does (C21_zext_wrapping_refuted:
+                              a known finding)
    The other transfer functions are not modelled; they are covered by the sweep of the real code only. *)
-Require Import CV.Model.PyPrelude CV.Model.SI CV.Proofs.SISound.
+Require Import CV.Model.PyPrelude CV.Model.SI CV.Proofs.SISound CV.Proofs.SIZext.
 From Coq Require Import ZArith List.
 Open Scope Z_scope.
 
@@ -37,3 +39,12 @@ Theorem C21_sub_unaligned_refuted :
   exists r, si_sub a b = Ok r /\ ~ In ((0 - 0) mod 2 ^ bits a) (members r).
 Proof. exact sub_unaligned_refuted. Qed.
 Print Assumptions C21_sub_unaligned_refuted.
+
+Theorem C21_zext : forall a n x, wf a -> lb a <= ub a -> bits a <= n -> gamma a x -> gamma (si_zext a n) x.
+Proof. exact zext_sound. Qed.
+Print Assumptions C21_zext.
+
+Theorem C21_zext_wrapping_refuted :
+  let a := mkSI 2 3 1 0 false in wf a /\ gamma a 0 /\ ~ In 0 (members (si_zext a 3)).
+Proof. exact zext_wrapping_refuted. Qed.
+Print Assumptions C21_zext_wrapping_refuted.
